@@ -64,9 +64,10 @@ def parse_listing(lst):
             text = " ".join(toks[k:])
             if not text and cur is not None and groups:
                 # a continuation line that carries its own address (extension words): it belongs to the instruction above
+                cur[6].append((int(m.group(1), 16), len(cur[1]) - cur[5]))       # address, groups shown by earlier continuation lines
                 cur[1].extend(groups)
                 continue
-            cur = [int(m.group(1), 16), groups, text, toks, k, len(groups)]
+            cur = [int(m.group(1), 16), groups, text, toks, k, len(groups), []]
             entries.append(cur)
             continue
         if cur is not None and line[:1] in (" ", "\t") and line.strip():
@@ -118,8 +119,9 @@ def judge_listing(cpu, src, files, decode_texts):
                 ua, bs.hex(), bytes(img.get(ua * bpa + i, 0) for i in range(len(bs))).hex())))
     # instruction lines: spans run to the next listed address / next unlisted byte
     starts = sorted(set(e[0] * bpa for e in entries))
-    for ua, groups, text, toks, k, nline in entries:
+    for ua, groups, text, toks, k, nline, cont in entries:
         a = ua * bpa
+
         nxt = [s for s in starts if s > a]
         end = nxt[0] if nxt else None
         n = sum(len(g) for g in groups)
@@ -132,13 +134,16 @@ def judge_listing(cpu, src, files, decode_texts):
         if not groups:
             viol.append(("no-bytes", "instruction line at 0x%x shows no opcode bytes" % ua))
             continue
+        first_kept = nline
         if not tile(span, groups):
             # a hex-like mnemonic may have been taken for a group: try giving tokens back to the text
             fixed = False
+            first_kept = nline
             for cut in range(nline - 1, 0, -1):
                 g2 = groups[:cut] + groups[nline:]          # the text starts earlier on the line; continuation words still count
                 if tile(span, g2):
                     groups, fixed = g2, True
+                    first_kept = cut
                     text = " ".join(toks[cut:])
                     break
             if not fixed:
@@ -149,6 +154,13 @@ def judge_listing(cpu, src, files, decode_texts):
                 continue
         for i in range(true_len):
             covered[a + i] = img[a + i]
+        for ca, j in cont:
+            # the shown bytes are exactly the instruction's bytes here, so a continuation line must name the address of its word
+            off = sum(len(g) for g in groups[:first_kept + j])
+            if ca != (a + off) // bpa:
+                viol.append(("continuation-address", "the continuation line of the instruction at 0x%x is labelled 0x%x, its bytes lie at 0x%x" % (
+                    ua, ca, (a + off) // bpa)))
+                break
         if decode_texts is not None and cpu not in PAIRED:
             want = decode_texts(a, span)
             if want is not None:
@@ -210,6 +222,8 @@ def programs(cpu, quick):
         out.append(("macro", hdr + ".macro BODY\n" + "\n".join(a) + "\n.endm\n.org 0x100\nBODY\n.db 1, 2, 3, 4, 5, 6, 7, 8\nBODY\n", {}))
         out.append(("include", hdr + ".org 0x100\n" + "\n".join(a[:1]) + "\n.include \"inc.inc\"\n.db 1, 2, 3, 4, 5, 6, 7, 8\n", {"inc.inc": "\n".join(b or a) + "\n"}))
         out.append(("include-list", hdr + ".org 0x100\n.include \"inc.inc\"\n" + "\n".join(a[:1]) + "\n", {"inc.inc": ".list\n" + "\n".join(b or a) + "\n.db 8, 7, 6, 5, 4, 3, 2, 1\n"}))
+        out.append(("include-nested", hdr + ".org 0x100\n" + "\n".join(a[:1]) + "\n.include \"outer.inc\"\n" + "\n".join(b or a) + "\n.db N1, N2, 3, 4, 5, 6, 7, 8\n",
+                    {"outer.inc": ".include \"inner.inc\"\n.define N1 1\n", "inner.inc": ".define N2 2\n"}))
         out.append(("repeat", hdr + ".org 0x100\n.repeat 3\n" + "\n".join(a[:1]) + "\n.endr\n.db 1, 2, 3, 4, 5, 6, 7, 8\n", {}))
         out.append(("labels", hdr + ".org 0x100\nfirst:\n" + "\n".join(a) + "\nsecond:\n.dw first, second\n.export second\n", {}))
     return out
